@@ -42,70 +42,96 @@ theorem reheap_heap (h : Heap) (hm : h.mark ≤ h.data.length) (hl : 0 < h.data.
   refine ⟨reheap_isHeap h hm hl hh, ?_, reheap_perm h hm hl, hh.mem_take_le hm⟩
   rw [mark_reheap h hm hl, length_reheap h hm hl]; omega
 
+/-- no pop of the batch has a throwing element assignment (see `cpq_pop_throw_not_isolated` for what the code
+does otherwise) -/
+def NoThrowingPop (ops : List Op) : Prop := ∀ o ∈ ops, o ≠ .pop true
+
+theorem noPopThrow_zipIdx (ops : List Op) (h : NoThrowingPop ops) : NoPopThrow ops.zipIdx := by
+  intro p hp
+  have := List.mem_zipIdx hp
+  exact h p.1 (by obtain ⟨o, i⟩ := p; simp at this; rw [this.2]; exact List.getElem_mem _)
+
 /-- Conservation for one batch: (final contents) + (values returned by successful pops) =
 (initial contents) + (values of successful pushes) as multisets, and every operation of the batch got
 exactly one status.  In particular no element is lost or duplicated and every popped value was in the
 queue or was pushed in this batch. -/
 theorem cpq_batch_conserves (h : Heap) (ops : List Op) (hh : IsHeap h.data h.mark)
-    (hfull : h.mark = h.data.length) :
-    ((handleOps h ops).2.map (fun e => (e.op, e.idx))).Perm ops.zipIdx ∧
-    ((handleOps h ops).1.data ++ popped (strip (handleOps h ops).2)).Perm
-      (h.data ++ pushed (strip (handleOps h ops).2)) :=
-  ⟨handleIdx_log h _, handleIdx_conserves h _ ⟨by omega, hh⟩ hfull⟩
+    (hfull : h.mark = h.data.length) (hnt : NoThrowingPop ops) :
+    ((handleOps h ops).log.map (fun e => (e.op, e.idx))).Perm ops.zipIdx ∧ (handleOps h ops).abort = none ∧
+    ((handleOps h ops).heap.data ++ popped (strip (handleOps h ops).log)).Perm
+      (h.data ++ pushed (strip (handleOps h ops).log)) :=
+  ⟨(handleIdx_log h _ (noPopThrow_zipIdx ops hnt) ⟨by omega, hh⟩ hfull).1,
+   (handleIdx_log h _ (noPopThrow_zipIdx ops hnt) ⟨by omega, hh⟩ hfull).2,
+   handleIdx_conserves h _ (noPopThrow_zipIdx ops hnt) ⟨by omega, hh⟩ hfull⟩
 
 /-- Batch linearizability: for every heap state (the code's entry invariant `mark == size`) and every batch
-there EXISTS an order `lin` of the batch's operations (a permutation of the status log; all operations of
-one batch are pairwise concurrent, so every order is admissible) under which the sequential
-priority-queue spec `specRun`, started from the initial contents, accepts exactly the observed results and
-ends with exactly the final contents; the final state satisfies the entry invariant again.
-By definition of `specStep` (see `spec_pop_meaning`) this says: every successful pop returns a maximal
+(of pushes, throwing pushes and pops) there EXISTS an order `lin` of the batch's operations (a permutation of
+the status log; all operations of one batch are pairwise concurrent, so every order is admissible) under
+which the sequential priority-queue spec `specRun`, started from the initial contents, accepts exactly the
+observed results and ends with exactly the final contents; the final state satisfies the entry invariant
+again.  By definition of `specStep` (see `spec_pop_meaning`) this says: every successful pop returns a maximal
 element of the contents at its place in the order, a failed pop sees empty contents there, a push fails iff
 its copy throws, and a failed push changes nothing. -/
 theorem cpq_batch_linearizable (h : Heap) (ops : List Op) (hh : IsHeap h.data h.mark)
-    (hfull : h.mark = h.data.length) :
-    IsHeap (handleOps h ops).1.data (handleOps h ops).1.mark ∧
-    (handleOps h ops).1.mark = (handleOps h ops).1.data.length ∧
-    ∃ (lin : List Ev) (sf : List Nat), lin.Perm (handleOps h ops).2 ∧
-      specRun h.data (lin.map (fun e => (e.op, e.res))) = some sf ∧ sf.Perm (handleOps h ops).1.data := by
+    (hfull : h.mark = h.data.length) (hnt : NoThrowingPop ops) :
+    IsHeap (handleOps h ops).heap.data (handleOps h ops).heap.mark ∧
+    (handleOps h ops).heap.mark = (handleOps h ops).heap.data.length ∧
+    ∃ (lin : List Ev) (sf : List Nat), lin.Perm (handleOps h ops).log ∧
+      specRun h.data (lin.map (fun e => (e.op, e.res))) = some sf ∧ sf.Perm (handleOps h ops).heap.data := by
   have w : WF h := ⟨by omega, hh⟩
-  obtain ⟨lin1, s1, _, hsim1, _⟩ := pass1_lin ops.zipIdx h h.data ⟨w, by simp [heapPart, hfull]⟩
-  obtain ⟨lin2, s2, _, hsim2, _⟩ := pass2_lin (pass1 h ops.zipIdx).2.2 (pass1 h ops.zipIdx).1 s1 hsim1
+  have hn := noPopThrow_zipIdx ops hnt
+  obtain ⟨lin1, s1, _, hsim1, _, hdf1, _⟩ := pass1_lin ops.zipIdx hn h h.data ⟨w, by simp [heapPart, hfull]⟩
+  obtain ⟨lin2, s2, _, hsim2, _, _⟩ := pass2_lin (pass1 h ops.zipIdx).dfr hdf1 (pass1 h ops.zipIdx).heap s1 hsim1
   obtain ⟨wfin, hmf, _⟩ := finish_spec _ hsim2.1
-  exact ⟨wfin.2, hmf, handleIdx_lin h _ w hfull⟩
+  refine ⟨?_, ?_, handleIdx_lin h _ hn w hfull⟩
+  · simp only [handleOps, handleIdx_eq h _ hn w hfull]; exact wfin.2
+  · simp only [handleOps, handleIdx_eq h _ hn w hfull]; exact hmf
 
-/-- what acceptance by the spec means for pops -/
-theorem spec_pop_meaning (s s' : List Nat) :
-    (∀ v, specStep s (.pop, .popOk v) = some s' → v ∈ s ∧ (∀ y ∈ s, y ≤ v) ∧ s' = s.erase v) ∧
-    (specStep s (.pop, .popFailed) = some s' → s = [] ∧ s' = []) ∧
-    (∀ x thr r, specStep s (.push x thr, r) = some s' →
-      (thr = false ∧ r = .pushOk ∧ s' = x :: s) ∨ (thr = true ∧ r = .pushFailed ∧ s' = s)) := by
-  refine ⟨?_, ?_, ?_⟩
-  · intro v hv
-    simp only [specStep] at hv
-    split at hv
-    · rename_i hc; exact ⟨hc.1, hc.2, by simpa using hv.symm⟩
-    · simp at hv
-  · intro hv
-    simp only [specStep] at hv
-    split at hv
-    · rename_i hc; subst hc; exact ⟨rfl, by simpa using hv.symm⟩
-    · simp at hv
-  · intro x thr r hv
-    cases r <;> cases thr <;> simp only [specStep] at hv <;> simp_all
+/-- what acceptance by the spec means -/
+theorem spec_pop_meaning (s s' : List Nat) (e : Op × Res) (h : specStep s e = some s') :
+    (∃ x, e = (.push x false, .pushOk) ∧ s' = x :: s) ∨ (∃ x, e = (.push x true, .pushFailed) ∧ s' = s) ∨
+    (∃ v, e = (.pop false, .popOk v) ∧ v ∈ s ∧ (∀ y ∈ s, y ≤ v) ∧ s' = s.erase v) ∨
+    (∃ thr, e = (.pop thr, .popFailed) ∧ s = [] ∧ s' = s) ∨ (e = (.pop true, .exc true) ∧ s ≠ [] ∧ s' = s) :=
+  specStep_cases s s' e h
 
-/-- Exception isolation: a push whose element copy throws gets FAILED (so `push` rethrows to its own caller
-only); the final queue state and the results of all other operations of the batch are exactly those of the
-same batch without that operation (for every heap, every batch `a ++ b`, every position of the throwing
-push and every labelling of the operations). -/
-theorem cpq_throw_isolated (h : Heap) (a b : List (Op × Nat)) (x i : Nat) :
-    (handleIdx h (a ++ (.push x true, i) :: b)).1 = (handleIdx h (a ++ b)).1 ∧
-    (handleIdx h (a ++ (.push x true, i) :: b)).2.Perm
-      (⟨i, .push x true, .pushFailed⟩ :: (handleIdx h (a ++ b)).2) :=
-  handleIdx_throw h a b x i
+/- FULL STATEMENT of exception isolation (property C13, last sentence), NOT provable for the code as it is:
 
+     for every heap, every batch and every operation `k` whose element copy/move throws, `k`'s own caller
+     receives the exception, and the final state and the results of all other operations are those of the
+     batch without `k`.
+
+   It holds for a throwing *copy in a push* (`cpq_throw_isolated_partial`): `handle_operations` catches it
+   and stores FAILED.  It FAILS for a throwing *assignment in a pop*: `*(tmp->elem) = std::move(data.back())`
+   / `std::move(data[0])` are outside any try block, so the exception leaves `handle_operations` in the handler
+   thread; `cpq_pop_throw_not_isolated` is the closed counterexample in the model of the code as written (and
+   `checks/c13.py` reproduces it on the real library: key `pop-assignment-throw-locks-queue`). -/
+
+/-- Exception isolation, the part the code guarantees: a push whose element copy throws gets FAILED (so
+`push` rethrows to its own caller only); the final queue state and the results of all other operations of the
+batch are exactly those of the same batch without that operation (for every heap, every batch `a ++ b` that
+itself runs to completion, every position of the throwing push and every labelling of the operations). -/
+theorem cpq_throw_isolated_partial (h : Heap) (a b : List (Op × Nat)) (x i : Nat)
+    (hab : (handleIdx h (a ++ b)).abort = none) :
+    (handleIdx h (a ++ (.push x true, i) :: b)).heap = (handleIdx h (a ++ b)).heap ∧
+    (handleIdx h (a ++ (.push x true, i) :: b)).abort = none ∧
+    (handleIdx h (a ++ (.push x true, i) :: b)).log.Perm
+      (⟨i, .push x true, .pushFailed⟩ :: (handleIdx h (a ++ b)).log) :=
+  handleIdx_throw h a b x i hab
+
+/-- Negation witness for the pop side (model of the code AS WRITTEN): queue `[5]`, batch `[try_pop, try_pop']`
+where the second pop's element assignment throws.  `handle_operations` is left by that exception
+(`abort = some 1`) and the OTHER operation (index 0) never gets a status — its caller spins forever — although
+nothing in it threw; one level up `handler_busy` is never cleared (`aggregator_pop_throw_witness`).
+(`guarded` is regenerated from the source on every run: `false` as long as the pop assignments are outside any
+try block, as in the pinned tree; for a repaired tree the witness is vacuous and the check's probes must pass.) -/
+theorem cpq_pop_throw_not_isolated : guarded = false →
+    (handleOps ⟨[5], 1⟩ [.pop false, .pop true]).abort = some 1 ∧
+    resultOf (handleOps ⟨[5], 1⟩ [.pop false, .pop true]).log 0 = none ∧
+    resultOf (handleOps ⟨[5], 1⟩ [.pop false]).log 0 = some (.popOk 5) := by decide
 
 /-- The combining aggregator (with the priority queue's handler), for ANY number of threads, ANY calls per
-thread (`todo`), ANY initial contents and ANY schedule, in every reachable state `s`:
+thread (`todo`, none of them a pop whose element assignment throws — with such a pop the statement is false,
+see `aggregator_pop_throw_witness`), ANY initial contents and ANY schedule, in every reachable state `s`:
 
 1. *Batches are handled one at a time*: at most one thread is between the `exchange` that grabs the pending
    list and the store that releases `handler_busy` (`Pc.active`).
@@ -124,7 +150,8 @@ thread (`todo`), ANY initial contents and ANY schedule, in every reachable state
 4. *Statuses are stored inside the batch*: whenever no handler is active, every grabbed operation has its
    status (`nSet = nGrab` for every thread); in particular a handler releases `handler_busy` only after the
    statuses of its whole batch are stored. -/
-theorem aggregator_serial_exactly_once (todo : Tid → List Op) (h0 : Heap) (sched : List Tid) :
+theorem aggregator_serial_exactly_once (todo : Tid → List (Op × Nat)) (h0 : Heap) (sched : List Tid)
+    (hnt : ∀ t, ∀ p ∈ todo t, popThrows p.1 = false) :
     let s := (Agg todo h0).run sched
     (∀ t u, (s.ths t).pc.active = true → (s.ths u).pc.active = true → t = u) ∧
     (∀ t, (s.ths t).nRet ≤ (s.ths t).nSet ∧ (s.ths t).nSet ≤ (s.ths t).nGrab ∧ (s.ths t).nGrab ≤ (s.ths t).nSub ∧
@@ -135,7 +162,7 @@ theorem aggregator_serial_exactly_once (todo : Tid → List Op) (h0 : Heap) (sch
       (s.ths u).nSet = (s.ths u).nRet) ∧
     ((∀ a, (s.ths a).pc.active = false) → ∀ u, (s.ths u).nSet = (s.ths u).nGrab) := by
   intro s
-  have h : Inv s := inv_run todo h0 sched
+  have h : Inv s := (inv_run todo h0 hnt sched).1
   refine ⟨h.act_unique, ?_, ?_, ?_⟩
   · intro t
     have a := h.sub t; have b := h.grabc t; have c := h.setc t; have d := h.subret t
@@ -151,14 +178,16 @@ theorem aggregator_serial_exactly_once (todo : Tid → List Op) (h0 : Heap) (sch
 /-- The ghost counters of `Agg` are honest: in one step of thread `t`, for every thread `u`,
 `nSub u` grows (by 1) exactly when `u = t` wins its CAS on the pending list; `nGrab u` grows exactly at `t`'s
 `exchange`, by the multiplicity of `u` in the pending list; `nSet u` grows (by 1) exactly when the handler `t`
-stores the status of `tmp = u`; `nRet u` grows (by 1) exactly when `u = t` returns to its caller. -/
+stores the status of `tmp = u`; `nRet u` grows (by 1) exactly when `u = t` returns to its caller (normally,
+or — as coded — because the exception of a pop's element assignment unwinds the handler, `unwinds`). -/
 theorem counters_meaning (s : St) (t u : Tid) :
     ((aggStep s t).ths u).nSub = (s.ths u).nSub +
-      (if u = t ∧ (s.ths t).pc = .cas ∧ s.plist.head? = (s.ths t).res then 1 else 0) ∧
+      (if u = t ∧ (s.ths t).pc = .cas ∧ headNode s = (s.ths t).res then 1 else 0) ∧
     ((aggStep s t).ths u).nGrab = (s.ths u).nGrab + (if (s.ths t).pc = .grab then s.plist.count u else 0) ∧
     ((aggStep s t).ths u).nSet = (s.ths u).nSet +
       (if ((s.ths t).pc = .p1Status ∨ (s.ths t).pc = .p2Status) ∧ u = (s.ths t).tmp then 1 else 0) ∧
-    ((aggStep s t).ths u).nRet = (s.ths u).nRet + (if u = t ∧ (s.ths t).pc = .rdStatus then 1 else 0) :=
+    ((aggStep s t).ths u).nRet = (s.ths u).nRet +
+      (if u = t ∧ ((s.ths t).pc = .rdStatus ∨ unwinds s t = true) then 1 else 0) :=
   ⟨nSub_step s t u, nGrab_step s t u, nSet_step s t u, nRet_step s t u⟩
 
 /-! non-vacuity: the hypotheses are satisfiable by non-trivial states, and the model computes what the code
@@ -174,8 +203,19 @@ example : IsHeap [5, 9, 4] 1 := fun i h0 h1 => by omega
 handled by thread 0 (whose own operation is the `push 5`), the pop is deferred to the second pass and
 receives the element pushed in the same batch. -/
 example :
-    let todo : Tid → List Op := fun t => if t = 0 then [.push 5 false] else if t = 1 then [.pop] else []
+    let todo : Tid → List (Op × Nat) := fun t => if t = 0 then [(.push 5 false, 0)] else if t = 1 then [(.pop false, 0)] else []
     let s := (Agg todo ⟨[], 0⟩).run [0,0,0,0, 1,1,1,1, 0,0,0, 0,0,0,0,0, 0,0,0,0, 0,0,0, 1,1]
     (s.ths 1).results = [.popOk 5] ∧ (s.ths 0).results = [.pushOk] ∧ (s.ths 1).nGrab = 1 ∧ (s.ths 1).nRet = 1 := by decide
+
+/-- Negation witness one level up (model of the code AS WRITTEN): thread 1's `try_pop` has a throwing element
+assignment and is combined into the batch handled by thread 0 (whose own operation is `push 5`).  The exception
+surfaces in thread 0's `push` call (`exc false`: not the caller of the throwing operation) although that push
+itself succeeded (its status was stored, `nSet = 1`), `handler_busy` stays 1 forever and thread 1 keeps
+spinning on a status that is never stored. -/
+theorem aggregator_pop_throw_witness : guarded = false →
+    let todo : Tid → List (Op × Nat) := fun t => if t = 0 then [(.push 5 false, 0)] else if t = 1 then [(.pop true, 0)] else []
+    let s := (Agg todo ⟨[], 0⟩).run [0,0,0,0, 1,1,1,1, 0,0,0, 0,0,0,0,0, 0,0, 1,1,1]
+    (s.ths 0).results = [.exc false] ∧ (s.ths 0).nRet = 1 ∧ (s.ths 0).nSet = 1 ∧ s.busy = 1 ∧
+    (s.ths 1).pc = .spin ∧ (s.ths 1).status = 0 ∧ (s.ths 1).results = [] := by decide
 
 end TbbVerif.C13
